@@ -98,12 +98,12 @@ def run_machine(prop, invs, props, tier, seed, schema="SchemaA", signature_prefi
     cinco = common.import_repo()
     out = common.Outcome(prop)
     d = tlc.scratch("cinco-cfgm-")
-    depth = 3 if tier == "quick" else 4
+    depth = 2 if tier == "quick" else 3
     # 1. exhaustive model checking of this property's predicates
     cfg = os.path.join(d, "mc.cfg")
     write_cfg(cfg, schema, depth, invs, props)
     if os.environ.get("VERIF_DEBUG_SKIP_MC"):  # debugging aid only: never set by the registered commands
-        write_cfg(cfg, schema, 2, invs, props)
+        write_cfg(cfg, schema, 1, invs, props)
     res = tlc.run("MC_Config.tla", cfg, workers=16, keep=())
     if not res.ok:
         out.violation(
@@ -124,7 +124,7 @@ def run_machine(prop, invs, props, tier, seed, schema="SchemaA", signature_prefi
     # 2b. deeper random behaviours from TLC's simulator
     cfgs = os.path.join(d, "sim.cfg")
     write_cfg(cfgs, schema, 99, export=True, bound=False)
-    nsim, dsim = (150, 8) if tier == "quick" else (1500, 12)
+    nsim, dsim = (400, 10) if tier == "quick" else (4000, 14)
     sim = tlc.run("MC_Config.tla", cfgs, workers=1, simulate=nsim, depth=dsim, seed=seed + 1, keep=("INIT", "EDGE"))
     sedges, sinits = normalise_graph_states(sim.printed.get("EDGE", []), sim.printed.get("INIT", []))
     g2 = replay.Graph(sinits + inits, sedges)
@@ -138,7 +138,7 @@ def run_machine(prop, invs, props, tier, seed, schema="SchemaA", signature_prefi
             m.to_json(),
         )
     # 3. code -> spec
-    ntr, ltr = (150, 12) if tier == "quick" else (1500, 20)
+    ntr, ltr = (250, 14) if tier == "quick" else (2500, 24)
     traces = driver(cinco, desc, seed, ntr, ltr)
     tcfg = os.path.join(d, "trace.cfg")
     with open(tcfg, "w") as fp:
